@@ -332,6 +332,14 @@ def _after(f, inst):
     return out
 
 
+BP_EXCEPTIONS = {
+    ("process_block", "memcpy", 0):
+        "the compressed bytes replace the block's own data: a compressor's do_block answers a positive value only if it is "
+        "smaller than the input size (K1-contract of C03 re-verifies that for every compressor on every run), and the input "
+        "was block->size bytes lying in block->data",
+}
+
+
 def rule_e_inflight(chk, prog):
     """in-flight copies of fragment blocks: taken before the block is handed to a worker (which compresses it in
     place), under the same configuration test as the comparator, and freed only where the block hits the disk"""
@@ -572,6 +580,64 @@ def rule_j_logged(chk, prog):
     return n
 
 
+def rule_compare_covers(chk, prog):
+    """K10-resume: the byte comparison of two file ranges (check_file_range_equal) reads each range front to back.  A read
+    that can follow an earlier read of the same comparison continues where that one ended: its position is formed from
+    something besides the range's start -- a loop-carried position, an index, the amount already compared.  A position
+    that is the bare start parameter again compares the first bytes twice and the last bytes never."""
+    f = prog.fn("check_file_range_equal")
+    if f is None or f.decl:
+        chk.broke("check_file_range_equal is not part of the program")
+        return 0
+    f.build()
+    cl, _e, _u = prog.reachable_from([f], stop=lambda g, u=f.unit: g.unit is not u)
+
+    def reads_file(c):
+        if slot_call(c) == ("struct.sqfs_file_t", "read_at"):
+            return 1               # index of the position operand
+        if c.callee:
+            g = prog.fn(c.callee, f.unit)
+            if g is not None and g in cl and g is not f:
+                for x in g.build().calls():
+                    if slot_call(x) == ("struct.sqfs_file_t", "read_at"):
+                        return None if not g.params else -1
+        return None
+    sites = []
+    for c in f.calls():
+        k = reads_file(c)
+        if k is None:
+            continue
+        if k == -1:
+            # a helper: its 64 bit integer arguments are the positions (and the length)
+            pos = [o for o in c.ops if (getattr(o, "ty", "") or "") == "i64"]
+        else:
+            pos = [c.ops[k]]
+        sites.append((c, pos))
+    if not sites:
+        chk.broke("check_file_range_equal reads nothing")
+        return 0
+    n = 0
+    starts = [p for p in f.params if p.ty == "i64"]
+    for (c, pos) in sites:
+        earlier = [c0 for (c0, _p) in sites if c0 is not c and f.reaches(c0.bb, c.bb)] or \
+            ([c] if f.loop_of(c.bb) is not None else [])
+        if not earlier:
+            continue
+        n += 1
+        chk.analysed(f)
+        inst = "%s:read@%d" % (f.name, c.line)
+        bare = [p for p in pos if any(strip_casts(p) is s_ for s_ in starts[:2])]
+        if not bare:
+            chk.ok("K10-resume", inst, c, "a read that can follow an earlier one is positioned by more than the start of the range")
+        else:
+            chk.violation("K10-resume", inst, c, "this read can follow an earlier read of the same comparison but is positioned at the bare "
+                          "start of the range: the first bytes are compared twice and the tail never, runs that differ only "
+                          "there are taken for duplicates")
+    if n == 0:
+        chk.broke("check_file_range_equal: no read follows another (not a loop any more?)")
+    return n
+
+
 def rule_h_equals_reports(chk, prog):
     """the fragment comparison callback returns bool and cannot hand an error to its caller: whenever reading the candidate
     back fails, the failure is recorded in the processor's error field before 'not equal' is answered -- otherwise an
@@ -750,6 +816,13 @@ def run(chk):
     chk.floor("K13-compare", 2)
     chk.floor("K-dedup-exit", 3)
     chk.floor("K13-dedup-args", 1)
+    # the buffers the comparison reads blocks back into: every copy into them fits the allocation that can be behind
+    # the pointer member it goes through (a block taken over from another list has that list's capacity)
+    rule_compare_covers(chk, prog)
+    chk.floor("K10-resume", 1)
+    from ..k6 import run_k6
+    run_k6(chk, prog, {"lib/sqfs/src/block_processor/block_processor.c"}, BP_EXCEPTIONS, "K6")
+    chk.floor("K6", 4)
     chk.floor("K-frag-true", 2)      # one memcmp result + at least one configured-off return (merged tests count once)
     chk.floor("K-frag-ctx", 2)
     chk.floor("K5-frag-err", 2)
